@@ -11,7 +11,7 @@ THEOREMS = ["C17_links", "C17_accepted_is_http", "C17_twin_flags",
             "(str / bytes independence and 'one url per anchor tag outside scripts, in order': document-grammar decider — partial)"]
 REGEXES = ["URL_IN_HTML_RE", "URL_IN_HTML_BINARY_RE", "SCRIPT_TAG_RE", "SCRIPT_TAG_BINARY_RE", "HTTP_PROTOCOL_RE", "PROTOCOL_RE"]
 
-HREFS = ["/dir/../rel.html", "/./x/../../y.html", "/a/b/../../c?q=../z", "//cdn.idontexistlol/page.html", "//x.notatld/a", "//localhost/x", "//bad host.com/", "//lemonde.fr", "http://lemonde.fr/a", "https://www.x.com/p?q=1&amp;r=2", "//cdn.x.com/s.js", "/rel/path", "rel.html", "#top", "javascript:void(0)", "mailto:a@b.c", "", " http://sp.com/a b ",
+HREFS = ["http://base.com/page#frag", "#frag", "http://lemonde.fr/#top", "/#top", "/dir/../rel.html", "/./x/../../y.html", "/a/b/../../c?q=../z", "//cdn.idontexistlol/page.html", "//x.notatld/a", "//localhost/x", "//bad host.com/", "//lemonde.fr", "http://lemonde.fr/a", "https://www.x.com/p?q=1&amp;r=2", "//cdn.x.com/s.js", "/rel/path", "rel.html", "#top", "javascript:void(0)", "mailto:a@b.c", "", " http://sp.com/a b ",
          "http://x.notatld/", "http://base.com/page", "http://é.fr/é", "HTTP://UP.COM/", "../up", "?q=only", "http://a.com/&#x2F;b", "http://dup.com/", "http://dup.com/", "ftp://f.com/x",
          "http://127.0.0.1/x", "http://x.com/\xa0y",
          # different spellings resolving to one url under each of the bases
@@ -66,7 +66,7 @@ def run(res, tier, rng):
         d, exp = gen_doc(rng)
         docs.append(d)
         expected[d] = exp
-    bases = ["http://base.com/page", "https://www.x.com/dir/", "http://lemonde.fr"]
+    bases = ["http://base.com/page", "https://www.x.com/dir/", "http://lemonde.fr", "http://base.com/page#frag", "http://lemonde.fr/#top"]
     reqs = []
     meta = []
     for i, d in enumerate(docs):
